@@ -54,16 +54,38 @@ WATCHED = {"compile", "exec", "builtins.input", "os.system", "subprocess.Popen",
            "os.exec", "os.posix_spawn", "os.spawn", "os.fork"}
 BLOCKED = {"os.system", "subprocess.Popen", "urllib.Request", "os.exec", "os.posix_spawn", "os.spawn", "os.fork"}
 
-_ST = {"armed": False, "busy": False, "events": [], "installed": False, "texts": ()}
+_ST = {"armed": False, "busy": False, "events": [], "installed": False, "texts": (), "cores": ()}
 RUN_SECONDS = 3.0
 CORR_SECONDS = 30.0   # correspondence cases are small; this only matters on an overloaded machine
 MAX_EVENTS = 20000   # per run; a program that loops on input()/print keeps only the first ones
+# identifiers the TRANSPILER makes out of a variable / function name of the Vyxal program
+# (the characters it keeps are property C18's concern): not user text run as Python
+GENERATED_NAME_PREFIXES = ("VAR_", "FN_", "_lambda_")
 IN_SCOPE_FUNCTIONS = {"vy_eval", "function_call", "exp2_or_eval", "get_input"}
 _AST_FILE = os.path.normcase(os.path.realpath(ast.__file__))
 
 
 class Blocked(RuntimeError):
     pass
+
+
+def nospace(x):
+    """text with all white space removed: sympy's parser re-spaces the tokens it is given"""
+    return "".join(x.split())
+
+
+def sweep_sentinels():
+    """Side effects a payload can have that raise no audit event: names left behind in
+    os.environ / builtins / sys.modules.  Returns them and removes them."""
+    found = []
+    for where, d in (("os.environ", os.environ), ("builtins", builtins.__dict__), ("sys.modules", sys.modules)):
+        for k in [k for k in list(d) if isinstance(k, str) and MARK in k]:
+            found.append((where, k))
+            try:
+                del d[k]
+            except Exception:  # noqa: BLE001
+                pass
+    return found
 
 
 class HardTimeout(BaseException):
@@ -125,7 +147,7 @@ def _hook(event, args):
             caller = f1 if not parse_only else f2
             src = str(src)
             chain = ()
-            if not parse_only and any(t in src for t in st["texts"]):
+            if not parse_only and (MARK in src or any(t in src for t in st["texts"])):
                 # which of the package's functions is this compile() working for?
                 names, f, n = [], f1, 0
                 while f is not None and n < 60:
@@ -145,7 +167,8 @@ def _hook(event, args):
                 if hasattr(c, "co_names"):
                     names += list(c.co_names) + list(c.co_varnames) + list(c.co_freevars) + list(c.co_cellvars)
                     stack += [k for k in c.co_consts if hasattr(k, "co_names")]
-            ev.append(("exec", getattr(co, "co_filename", ""), [n for n in names if MARK in n], sys._getframe(1).f_code.co_filename))
+            ev.append(("exec", getattr(co, "co_filename", ""),
+                       [n for n in names if MARK in n and not n.startswith(GENERATED_NAME_PREFIXES)], sys._getframe(1).f_code.co_filename))
         elif event == "builtins.input":
             ev.append(("input", repr(args[0]) if args else ""))
         elif event == "open":
@@ -214,8 +237,10 @@ def where_raised(exc):
     return "pre"
 
 
-def run_impl(prog, inputs, flags, online, count_prints=False, texts=()):
+def run_impl(prog, inputs, flags, online, count_prints=False, texts=(), cores=()):
     """One real run of execute_vyxal.  Returns the observation record (never raises)."""
+    _ST["cores"] = tuple(nospace(c) for c in cores)
+    sweep_sentinels()
     _ST["texts"] = tuple(t for t in texts if len(t.strip()) >= 2 and (MARK in t or not is_plain_literal(t.strip())))
     import vyxal.main as M
     ensure_hook()
@@ -257,6 +282,8 @@ def run_impl(prog, inputs, flags, online, count_prints=False, texts=()):
     finally:
         _ST["armed"] = False
         builtins.print = real_print
+    for where_, key in sweep_sentinels():
+        _ST["events"].append(("sentinel", where_, key))
     return {"host": buf.getvalue(), "out1": out[1], "out2": out[2], "err": err, "where": where, "msg": msg,
             "events": _ST["events"]}
 
@@ -284,7 +311,7 @@ def is_plain_literal(t):
         return False
 
 
-def compiled_user_text(src, texts):
+def compiled_user_text(src, texts, cores=()):
     """Is one of the user's texts compiled as CODE by this source, i.e. does it occur in it
     outside every string constant?  (The transpiled program legitimately contains the
     user's strings as constants.)"""
@@ -302,6 +329,15 @@ def compiled_user_text(src, texts):
                 return t if MARK in ts else None
             if not any(ts in c for c in consts):
                 return t
+    # the payload inside a larger text, re-spaced by a tokenizer on the way to compile()
+    if cores and MARK in src:
+        ns = nospace(src)
+        for c in cores:
+            nc = nospace(c)
+            if nc in ns:
+                consts = str_constants(src)
+                if consts is None or not any(nc in nospace(k) for k in consts):
+                    return c
     # the marker in identifier position
     if MARK in src:
         for mode in ("exec", "eval"):
@@ -312,13 +348,13 @@ def compiled_user_text(src, texts):
             for n in ast.walk(tree):
                 for fld in ("id", "attr", "arg", "name"):
                     v = getattr(n, fld, None)
-                    if isinstance(v, str) and MARK in v:
+                    if isinstance(v, str) and MARK in v and not v.startswith(GENERATED_NAME_PREFIXES):
                         return v
             break
     return None
 
 
-def judge(rec, texts, flags="", expect_raise=None, expect_out1=None):
+def judge(rec, texts, flags="", expect_raise=None, expect_out1=None, cores=()):
     """-> list of (cls, what).  The property, stated on the observation of one online run."""
     bad = []
     if rec["host"] != "":
@@ -326,13 +362,15 @@ def judge(rec, texts, flags="", expect_raise=None, expect_out1=None):
     ninput = 0
     for e in rec["events"]:
         if e[0] == "compile" and not e[2]:
-            hit = compiled_user_text(e[1], texts)
+            hit = compiled_user_text(e[1], texts, cores)
             if hit is not None and "sympy" in e[5] and not (set(e[6]) & IN_SCOPE_FUNCTIONS):
                 bad.append(("NOTE:sympy-evaluates-text", f"user text {hit[:60]!r} reaches sympy's parser ({e[3]}): {e[1][:80]!r}"))
             elif hit is not None:
                 bad.append(("C19:compile-user-text", f"user text {hit[:60]!r} compiled as Python by {e[3]} ({os.path.basename(e[5])}): {e[1][:80]!r}"))
         elif e[0] == "exec" and e[2]:
             bad.append(("C19:exec-user-text", f"code object with tainted names {e[2][:3]} executed"))
+        elif e[0] == "sentinel":
+            bad.append(("C19:host-side-effect", f"user text was executed: it left {e[2]!r} in {e[1]}"))
         elif e[0] == "side":
             bad.append(("C19:host-side-effect", f"audit event {e[1]} {e[2][:100]}"))
         elif e[0] == "open" and MARK in e[1]:
@@ -376,10 +414,11 @@ def oracle_case(case):
         limit_memory()
     prog, inputs, flags = case["prog"], case["inputs"], case["flags"]
     texts = list(case.get("texts", [])) + list(inputs)
-    timed_out, rec = with_deadline(RUN_SECONDS, run_impl, prog, inputs, flags, True, texts=texts)
+    cores = case.get("cores", ())
+    timed_out, rec = with_deadline(RUN_SECONDS, run_impl, prog, inputs, flags, True, texts=texts, cores=cores)
     if timed_out:
         return {"bad": [], "err": "timeout", "where": None, "ninput": 0, "nev": {}, "out1": "", "out2": False, "diff": None}
-    bad, ninput = judge(rec, texts, flags, case.get("raises"), case.get("out1"))
+    bad, ninput = judge(rec, texts, flags, case.get("raises"), case.get("out1"), cores)
     diff = None
     if case.get("diff") and rec["err"] is None and len(rec["events"]) < MAX_EVENTS:
         # every print(...) of the offline run must be a write to the record online
@@ -520,18 +559,129 @@ def fixed_cases():
     return cs
 
 
+
+# ----------------------------------------------------------------------------
+# tainted texts in literal-looking contexts
+# ----------------------------------------------------------------------------
+# A guard that decides "this text is harmless, hand it to an evaluator" looks at how the
+# text BEGINS or what it is MADE OF.  So every side-effect payload is wrapped:
+#     prefix  joiner  payload  suffix
+# with prefixes that look like every kind of literal (and lexical variants of them),
+# joiners that continue an expression / statement after such a literal, and suffixes.
+SENTINEL_PAYLOADS = [
+    "__import__('os').environ.__setitem__('VYTAINT','x')",          # no audit event: found in os.environ afterwards
+    "__import__('builtins').__dict__.__setitem__('VYTAINT_B',1)",   # found in builtins afterwards
+    "print('VYTAINT')",                                             # host stdout
+    "__import__('os').system('echo VYTAINT')",                      # audit event os.system (blocked)
+    "open('/tmp/VYTAINT_file','w')",                                # audit event open (blocked)
+    "VYTAINT_probe(1)",                                             # a tainted NAME in the compiled code
+]
+CTX_PREFIXES = [
+    "1", "0", "-1", "+7", "12345678901234567890", "1/2", "-22/7", "+3 / 4", "1 /2", "1/ 2", "10/5", "1//2", "1%2", "1**2",
+    "0.5", "-.5", "1.", "1e3", "2E-2", "-1.5e+3", "1j", "1+2j", "0x1f", "0b101", "0o17", "1_000",
+    "'a'", "\"a\"", "\"\"\"a\"\"\"", "b'a'", "f'a'", "''", "[1", "[1, 2]", "[", "(1", "(1, 2)", "(", "{1: 2", "{1", "{1: 2}", "{",
+    "True", "False", "None", "...", "-", "+", "~1", "not 1", "x", "_", "lambda: 1", "1 if 1 else 2", "1,", "1, 2", "[]", "()", "{}",
+    " 1/2", "\t1/2", "1/2 ", "  7", "1/2#c", "1/2\\", "(1/2)", "[1/2]", "- 1/2", "1 2", "1/2/3", "22/7.0", "1/0",
+]
+CTX_JOINERS = [
+    "+", "-", "*", "/", "//", "%", "**", ",", ", ", ";", "; ", " if ", " else ", " if 1 else ", " and ", " or ", " for _ in ", " in ", " is ",
+    "==", "<", "|", "&", "^", "@", ".real+", ".__class__+", "[0]+", "()+", "(", "[", ".", " ", "  ", "\t", "\n", "#\n", ":", "=", ":=",
+    "]+", ")+", "}+", "]", ")", "}", "],", "),", "",
+]
+CTX_SUFFIXES = ["", "", "", " ", ")", "]", "}", "#x", ";1", " or 1", "+1/2", ",1", "\n1", " if 1 else 2"]
+
+
+def context_text(prefix, joiner, core, suffix):
+    return prefix + joiner + core + suffix
+
+
+def context_cases(rng, thorough):
+    """every prefix x joiner (payload and suffix drawn per pair), each through evaluation
+    sinks in rotation: explicit / implicit input, input then E, E on a string literal,
+    vectorised E, the call element, E-dot, input flags"""
+    cases = []
+    n = 0
+    for pre in CTX_PREFIXES:
+        for j in CTX_JOINERS:
+            core = rng.choice(SENTINEL_PAYLOADS)
+            t = context_text(pre, j, core, rng.choice(CTX_SUFFIXES))
+            lit_ok = "`" not in t and "\\" not in t
+            one_line = "\n" not in t
+            sinks = []
+            # (program, inputs, flags, expected record[1] or None)
+            sinks.append(("?,", [t], "", (t + "\n") if one_line else None))
+            sinks.append(("?E,", [t], "", (t + "\n") if one_line else None))
+            sinks.append((",", [t], "", (t + "\n") if one_line else None))
+            sinks.append(("?,?,", ["7", t], "", ("7\n" + t + "\n") if one_line else None))
+            sinks.append(("?,", [t], rng.choice(["a", "ḋ", "j", "Ṡ", "ḋa"]), None))
+            if lit_ok:
+                sinks.append((vy_string(t) + "E,", [], "", t + "\n"))
+                sinks.append(("⟨" + vy_string(t) + "|" + vy_string(t) + "⟩E,", [], "", None))
+                sinks.append((vy_string(t) + "†", [], "", None))
+                sinks.append((vy_string(t) + "wvE,", [], "", None))
+                if n % 7 == 0:
+                    sinks.append((vy_string(t) + "Ė", [], "", None))
+            k = min(5, len(sinks)) if thorough else 2
+            for i in range(k):
+                prog, inputs, flags, exp = sinks[(n + i * 3) % len(sinks)]
+                cases.append({"prog": prog, "inputs": inputs, "flags": flags, "texts": [t], "cores": [core], "out1": exp,
+                              "limit": True, "ctx": (pre, j)})
+            n += 1
+    return cases
+
+
+# ----------------------------------------------------------------------------
+# flags x scalar kinds x printing elements
+# ----------------------------------------------------------------------------
+SCALAR_KINDS = [
+    ("int", "5"), ("negative", "5N"), ("rational", "1 3/"), ("decimal literal", "0.25"), ("irrational", "2√"), ("sum with irrational", "1 3/2√+"),
+    ("python float", "`-3`EE"), ("complex", "`1j`E"), ("complex sum", "`1+2j`E"), ("big int", "10 30e"), ("string", "`ab`"), ("numeric string", "`1/3`"),
+    ("function", "λ1 3/;"), ("list", "⟨1 3/|2√|`a`⟩"), ("lazy list", "3ɾ3/"), ("nested", "⟨⟨1 3/⟩|3ɾ2/⟩"), ("evaluated input", "?"),
+]
+PRINT_FORMS = [",", "…_", "₴", "¨,", "¨…_", "", ":,,", "w,", "S,"]
+FLAG_ALPHABET = "ḋjJWSsdlGgLCPṪṡoOaṠMmṀRrtD…H23?"
+
+
+def flag_sets(rng, n):
+    base = ["", "ḋ", "P", "j", "W", "ḋj", "ḋW", "ḋP", "ḋo", "ḋs", "ḋS", "ḋJ", "ḋl", "ḋṠ", "ḋa", "ḋO", "ḋr", "ḋt"]
+    out = list(base)
+    while len(out) < n:
+        out.append("".join(rng.sample(FLAG_ALPHABET, rng.randrange(1, 4))))
+    return out
+
+
+def print_matrix_cases(rng, thorough):
+    cases = []
+    fsets = flag_sets(rng, 30 if thorough else 24)
+    for kind, push in SCALAR_KINDS:
+        for form in PRINT_FORMS:
+            for fl in (fsets if thorough else fsets[:10] + rng.sample(fsets[10:], 4)):
+                cases.append({"prog": push + form, "inputs": ["1/3", "0.5"] if push == "?" else ["7"], "flags": fl, "texts": [],
+                              "diff": True, "limit": True, "matrix": kind})
+    return cases
+
+
 class TaintGen(PG.ProgGen):
     """core grammar + every printing element + E, dagger, E-dot; string literals carry a
     payload.  E is only ever emitted right after a string literal or an input read: E on a
     NUMBER is 2**n, and a chain of those is an uninterruptible big-integer power."""
 
     def tainted_string(self):
-        p = self.rng.choice(PAYLOADS + LITERALS)
+        r = self.rng
+        if r.random() < 0.5:
+            p = context_text(r.choice(CTX_PREFIXES), r.choice(CTX_JOINERS), r.choice(SENTINEL_PAYLOADS), r.choice(CTX_SUFFIXES))
+            if "`" in p or "\\" in p:
+                p = r.choice(PAYLOADS)
+        else:
+            p = r.choice(PAYLOADS + LITERALS)
         return [("`", PG.CODE), (p, PG.PAYLOAD, "string"), ("`", PG.CLOSER)]
 
     def literal(self):
-        if self.rng.random() < 0.45:
+        x = self.rng.random()
+        if x < 0.4:
             return self.tainted_string()
+        if x < 0.5:
+            return [(self.rng.choice(["0.5", "2.25", ".1", "1 3/", "2√", "1 7/"]), PG.CODE), (" ", PG.CODE)]
         return super().literal()
 
     def element(self):
@@ -547,7 +697,7 @@ def random_cases(rng, n, diff=False):
     if diff:
         elements = [e for e in PG.CORE_ELEMENTS if e not in "†?"] + PRINTERS * 2
     else:
-        elements = PG.CORE_ELEMENTS + PRINTERS * 2 + ["†", "Ė", "?"]
+        elements = PG.CORE_ELEMENTS + PRINTERS * 2 + ["†", "Ė", "?", "/", "/", "√", "I"]
     g = TaintGen(rng, elements=elements, with_break=True, with_functions=True, with_modifiers=True,
                  payload_chars=list("abz019 "), max_items=4) if not diff else PG.ProgGen(
         rng, elements=elements, payload_chars=list("abz019 "), max_items=4)
@@ -556,13 +706,16 @@ def random_cases(rng, n, diff=False):
         prog = PG.text(g.program(depth=rng.choice([1, 2, 2, 3])))
         if diff:
             inputs = [rng.choice(LITERALS) for _ in range(rng.randrange(0, 3))] or ["5"]
-            flags = rng.choice(["", "", "j", "W", "J", "S", "o", "O"])
+            flags = rng.choice(["", "", "j", "W", "J", "S", "o", "O", "ḋ", "ḋj", "P"])
             texts = []
         else:
-            inputs = [rng.choice(PAYLOADS + LITERALS) for _ in range(rng.randrange(0, 3))]
-            flags = rng.choice(["", "", "", "j", "J", "W", "a", "c", "o", "O", "Ṡ", "S", "s"])
+            inputs = [rng.choice(PAYLOADS + LITERALS) if rng.random() < 0.5 else
+                      context_text(rng.choice(CTX_PREFIXES), rng.choice(CTX_JOINERS), rng.choice(SENTINEL_PAYLOADS), rng.choice(CTX_SUFFIXES))
+                      for _ in range(rng.randrange(0, 3))]
+            flags = "" if rng.random() < 0.3 else "".join(rng.sample(FLAG_ALPHABET + "c", rng.randrange(1, 4)))
             texts = [p for p in PAYLOADS + LITERALS if p in prog]
-        out.append({"prog": prog, "inputs": inputs, "flags": flags, "texts": texts, "diff": diff, "limit": True})
+        out.append({"prog": prog, "inputs": inputs, "flags": flags, "texts": texts, "diff": diff, "limit": True,
+                    "cores": [] if diff else SENTINEL_PAYLOADS})
     return out
 
 
@@ -640,7 +793,9 @@ def oracle(env):
     for c in fixed[:40]:
         c["diff"] = "c" not in c["flags"] and "h" not in c["flags"]
     swp, swept_keys, swept_mods = sweep_cases(env)
-    cases = fixed + rnd + dif + swp
+    ctxc = context_cases(env.rng, env.thorough)
+    mat = print_matrix_cases(env.rng, env.thorough)
+    cases = fixed + rnd + dif + swp + ctxc + mat
     res = V.pmap(oracle_case, cases, timeout=4 * RUN_SECONDS, procs=min(V.NPROC, 8))
     stats = {"ok": 0, "timeout": 0, "exc": 0, "raised_recorded": 0, "finished": 0, "host_input_reads": 0,
              "diff_compared": 0}
@@ -686,7 +841,11 @@ def oracle(env):
     env.note("user_function_sweep", {"elements_that_can_call_a_user_function": len(swept_keys), "keys": "".join(k + " " for k in swept_keys),
                                      "modifiers": "".join(swept_mods), "programs": len(swp),
                                      "lambdas": ["λ,;", "λ_`" + SWEEP_PAYLOAD + "`E;", "λ_`" + SWEEP_PAYLOAD + "`†;"]})
-    env.note("oracle_runs", {"fixed": len(fixed), "user_function_sweep": len(swp), "random_tainted": len(rnd), "random_differential": len(dif), **stats})
+    env.note("tainted_context_grammar", {"prefixes": len(CTX_PREFIXES), "joiners": len(CTX_JOINERS), "payloads": len(SENTINEL_PAYLOADS), "suffixes": len(set(CTX_SUFFIXES)),
+                                         "pairs_covered": len(CTX_PREFIXES) * len(CTX_JOINERS), "programs": len(ctxc),
+                                         "sinks": "?, | ?E, | implicit input | mixed inputs | input flags a ḋ j Ṡ | `t`E, | vectorised E | † | wvE | Ė"})
+    env.note("print_matrix", {"scalar_kinds": [k for k, _ in SCALAR_KINDS], "print_forms": PRINT_FORMS, "programs": len(mat)})
+    env.note("oracle_runs", {"fixed": len(fixed), "user_function_sweep": len(swp), "tainted_contexts": len(ctxc), "print_matrix": len(mat), "random_tainted": len(rnd), "random_differential": len(dif), **stats})
     env.note("audit_event_counts", nev)
     env.note("sympy_text_evaluation_reached_NOT_judged", sympy_notes)
     env.sample({"oracle_case": cases[len(fixed) + 3]})
@@ -773,7 +932,8 @@ def converts(v, top=True):
     import math
     if v is None or v is Ellipsis:
         return False
-    if isinstance(v, (bool, int, str, complex)):
+    import types
+    if isinstance(v, (bool, int, str, complex, types.FunctionType)):
         return True
     if isinstance(v, float):
         return math.isfinite(v) if top else True
@@ -835,7 +995,15 @@ def benign_texts(rng, n):
         else:
             t = rng.choice([f"{a} +", f"[{a}", f"{w}(", f"'{w}", f"{a}//{b}", f"abs({a})", f"\"{w}\"", f"  {a}", f"{a} "])
         pool.append(t)
-    return pool
+    # the literal-looking contexts of the oracle, around harmless cores, and on their own
+    cores = ["len('ab')", "max(1, 2)", "abs(-3)", "7", "'s'"]
+    for pre in CTX_PREFIXES:
+        if pre in ("x", "_"):
+            continue
+        pool.append(pre)
+        for j in rng.sample(CTX_JOINERS, 3) + ["+"]:
+            pool.append(context_text(pre, j, rng.choice(cores), rng.choice(CTX_SUFFIXES)))
+    return [t for t in pool if "\n" not in t or rng.random() < 0.5]
 
 
 def corr_eval_case(item):
@@ -1276,7 +1444,7 @@ def run(env):
                 "when an exception other than SystemExit leaves execute_vyxal (wherever it was raised: input handling, transpile, body, flag post-processing, implicit output); when a raising program does not end in SystemExit with a traceback in record[2]; when SystemExit comes without a record; when record[1] differs from the expected text "
                 "(fixed cases) or from the offline stdout of the same program (differential cases). Programs: a fixed list (every printing element on scalar/list/lazy list/function, flags jJWSsdlGgLC…PṪṡcoOh, implicit output, "
                 "E/†/Ė/vectorised E on 10 tainted payloads and 9 literals, 73 valid Python literals that are not Vyxal values or are lexical edge cases (None, ..., True, bytes, sets, dicts, tuples, [1, None], complex, huge ints, 1e400, nan, quotes/escapes, whitespace, unterminated) as inputs alone and mixed, read by ? / implicit input / ?E / never read, flags a and Ṡ, every element whose implementation can call a function it is handed (derived from the translator's call graph: safe_apply or a call of a parameter, transitively) and every modifier with lambdas that print / apply E / apply † to a tainted string,  the same texts as inputs through ? , implicit input, □, flags a/Ṡ, raising programs, programs whose flag post-processing or implicit output raises) "
-                "plus random programs from the core grammar (vlib/progs.py) extended with , … ₴ ¨, ¨… E † Ė whose string literals and inputs are drawn from the payloads. "
+                "every side-effect payload (sentinels left in os.environ / builtins, host print, os.system, open, a tainted name) wrapped in LITERAL-LOOKING CONTEXTS -- 72 prefixes (ints, signed, fractions 1/2 -22/7 with spacing variants, decimals, exponent forms, complex, hex/bin/oct, strings in every quote style, list/tuple/dict/set openers and closed forms, True/None/..., unary operators, names, whitespace/comment/continuation variants) x 49 joiners (arithmetic, comma, semicolon, if/else/and/or/for/in, attribute/index/call tails, whitespace/newline/comment, closers) x 14 suffixes -- every prefix x joiner pair through evaluation sinks in rotation (?, / ?E, / implicit input / mixed inputs / input flags / E on a string literal / vectorised E / the call element / E-dot), expecting the text back unchanged where it is printed; a matrix of 17 scalar kinds (int, rational, decimal, irrational, python float, complex, big int, string, function, list, lazy list, nested, evaluated input) x 9 printing forms (, … ₴ ¨, ¨… implicit output, dup, wrapped, stringified) x flag sets (ḋ alone and combined, P j W s S J l Ṡ a O r t, random subsets) with the offline/online print-count differential; plus random programs from the core grammar (vlib/progs.py) extended with , … ₴ ¨, ¨… E † Ė whose string literals and inputs are drawn from the payloads. "
                 "CORRESPONDENCE (model evaluated in Coq): vy_eval on generated benign texts and the 73 odd literals x both modes (trace + value / unchanged (same object) / raises -- the model never raises), vy_print on random value shapes (scalar, list, function, lazy list with cached prefix, nested) x both modes "
                 "(number and kind of output effects; online text = offline text), function_call/vy_exec on strings and numbers, execute_vyxal on generated scenarios (inputs, flags c O o Ṡ, body of prints/E/†/Ė, raising body, transpile failure, final value that prints or raises) x both modes. "
                 "Non-trivial = the run involves a user text, an input, a printing element or an error / the value is not a bare scalar; distinct by canonical input.")
